@@ -388,6 +388,54 @@ func c08Programs(tier string) []*schedmc.Program {
 	return progs
 }
 
+// c04ConcPrograms (family "C04conc", run by C04): a lock taken over by a waiting Lock after the
+// holder's Lease, on replicated clusters - the one place where a write carries a time stamp older
+// than the copy it replaces (a Lock that waits re-tries with the time stamp of its invocation). After
+// the run every backup copy of the lock entry must equal the primary copy.
+func c04ConcPrograms(tier string) []*schedmc.Program {
+	var progs []*schedmc.Program
+	for _, ps := range [][]string{{"L30/0 S5 E20", "S2 L0/80"}, {"L30/0 S5 E20", "S2 L60/80 S1 E40"}} {
+		for _, ents := range [][]string{{"EO", "EO"}, {"EN", "EO"}, {"CC", "EN"}} {
+			ps, ents := ps, ents
+			p := &schedmc.Program{
+				Name: fmt.Sprintf("take-over after a lease locks=[%s] N=3 R=3 entries=%s", strings.Join(ps, " || "), strings.Join(ents, "+")),
+				Opts: simcluster.Opts{N: 3, Replicas: 3, WriteQ: 1, ReadQ: 1, Partitions: 7},
+				DMap: "locks", Key: "res",
+			}
+			for i, e := range ents {
+				p.Threads = append(p.Threads, schedmc.Thread{Entry: e, Body: lockBody(ps[i])})
+			}
+			p.Judge = func(cl *simcluster.Cluster, h *schedmc.Hist, x *sched.Exec) (string, string) {
+				sig := fmt.Sprintf("progs=%s/entries=%s", strings.ReplaceAll(strings.Join(ps, "||"), " ", "."), strings.Join(classes(ents), "+"))
+				var prim *simcluster.Copy
+				cps := cl.Copies("locks", "res")
+				for i := range cps {
+					if cps[i].Kind == "primary" {
+						prim = &cps[i]
+					}
+				}
+				for _, c := range cps {
+					if c.Kind != "backup" {
+						continue
+					}
+					switch {
+					case prim == nil:
+						return "mirror/backup-has-copy-primary-absent/" + sig, fmt.Sprintf("after %s: backup copy on %s, no primary copy", h, c.Member)
+					case string(c.Value) != string(prim.Value) || c.TTL != prim.TTL || c.Timestamp != prim.Timestamp:
+						return "mirror/backup-differs/" + sig, fmt.Sprintf("after %s: primary copy {ttl %d ts %d}, backup copy on %s {ttl %d ts %d}, same value: %v", h, prim.TTL, prim.Timestamp, c.Member, c.TTL, c.Timestamp, string(c.Value) == string(prim.Value))
+					}
+				}
+				if prim != nil && len(cps) != 3 {
+					return "mirror/backup-missing/" + sig, fmt.Sprintf("after %s: %d copies of the lock entry, 3 expected", h, len(cps))
+				}
+				return "", ""
+			}
+			progs = append(progs, p)
+		}
+	}
+	return progs
+}
+
 // c08LongPrograms: a waiter whose Lock waits for SECONDS (longer than the 3 s read timeout of the
 // clients that carry commands between members): holder keeps an untimed lock for 4 s, the waiter
 // asks with a 5 s deadline from 2 ms on and must get the lock at about 4 s. Explored at a lower
@@ -425,6 +473,7 @@ func c08LongPrograms(tier string) []*schedmc.Program {
 
 func init() {
 	schedmc.Families["C08long"] = c08LongPrograms
+	schedmc.Families["C04conc"] = c04ConcPrograms
 	schedmc.Families["C08"] = c08Programs
 	core.Register(&core.Check{ID: "C08", Level: "model_checking", Run: func(c *core.Ctx) {
 		bound := 2
